@@ -14,7 +14,8 @@ steps of `_parse`:
 
 Error positions: `ParseError.lineno` is `reader.line` at the moment of `raise_parse_error`.
 The model follows the code after the `fix:` commits of branch fix/g12 (apply/block name checked before the
-body is parsed; `autoescape`/`raw`/`module` without argument and unknown whitespace modes are ParseErrors).
+body is parsed; `autoescape`/`raw`/`module` without argument and unknown whitespace modes are ParseErrors) and after the
+`fix:` commit of branch fix/hC19 (`break`/`continue` in the `else` clause of a loop belong to the enclosing loop).
 -/
 import TornadoModel.C19.Base
 namespace TornadoModel.C19
@@ -191,8 +192,14 @@ def blockTagK (st : BState) (contents : Str) (l : Nat) : Except ErrKind BState :
   | some allowed =>
     match st.stack with
     | [] => .error .interOutside
-    | f :: _ =>
-      if allowed.contains f.op then .ok (push st (.inter contents l))
+    | f :: fs =>
+      if allowed.contains f.op then
+        -- the `else` clause of a loop is not part of the loop body: `in_loop` falls back to the enclosing loop
+        let st' : BState :=
+          if op == (/-"else"-/ [101, 108, 115, 101] : List Nat) && (f.op == (/-"for"-/ [102, 111, 114] : List Nat) || f.op == (/-"while"-/ [119, 104, 105, 108, 101] : List Nat)) then
+            { st with stack := { f with inLoop := inLoopOf { st with stack := fs } } :: fs }
+          else st
+        .ok (push st' (.inter contents l))
       else .error .interNotAttachable
   | none =>
     if op == (/-"end"-/ [101, 110, 100] : List Nat) then
